@@ -232,6 +232,25 @@ for _pid, (_t, _k) in EXTRA2.items():
     _ref, _text, _tech = CLAIMS[_pid]
     CLAIMS[_pid] = (_ref, _text + _t, _tech + _k)
 
+EXTRA3 = {
+    "C01": " Seeded rounds d-e: a dataset clause replaces the dataset (the view's two lists derive from the query's FROM / FROM NAMED only).",
+    "C02": " Seeded rounds d-e: an optimizer candidate keeps the node's children, and the incoming solutions enter a join once.",
+    "C05": " Seeded rounds d-e: match-or-bind sees its own bindings; the rule-filter evaluator accepts only after every operator was excluded, compares "
+           "identifiers only when both come from the bindings and never defaults a non-number to a number (two defects fixed).",
+    "C06": " Seeded rounds d-e: the exact model counter returns by expansion (no closed-form shortcut) and saturation compares whole tags.",
+    "C07": " Seeded rounds d-e: the keys of twin caches have the same shape, and absence is never encoded by a value the allocator hands out.",
+    "C08": " Seeded rounds d-e: a choice of an exclusive group is never registered as an independent variable.",
+    "C10": " Seeded rounds d-e: the key that orders emitted rows is unique within a row.",
+    "C11": " Seeded rounds d-e: every window declaration is paired with its WINDOW block by a search over the complete block list.",
+    "C12": " Seeded rounds d-e: delta and total play their roles by use, and the carried-over facts are filtered by expiry only.",
+    "C13": " Seeded rounds d-e: escapes are tracked by state, not by looking back, and the prefix expander cuts a prefixed name at its first colon.",
+    "C14": " Seeded rounds d-e: undelimited placeholders are written only after excluding the statement punctuation, and the IRI guess requires a non-empty scheme.",
+    "C16": " Seeded rounds d-e: a failed depth charge is refunded, nom offsets are taken between a slice and its own remainder, and a comment ends at CR or LF.",
+}
+for _pid, _t in EXTRA3.items():
+    _ref, _text, _tech = CLAIMS[_pid]
+    CLAIMS[_pid] = (_ref, _text + _t, _tech)
+
 NA = {}
 
 PENDING = "check not implemented yet in this revision (see DESIGN.md for the planned rules)"
